@@ -1328,6 +1328,13 @@ def _c08_worker(args):
         save_state(sb, save)
         pre = sb.snaps()
         pre_arch = sb.archive_bytes()
+        # deletes the run under test announces: such a path may be absent after a kill even when the uninterrupted
+        # run ends with the path present again (a divergent edit applied later in the same run re-creates its
+        # conflict-copy under that name): the delete is "a version the run was delivering"
+        planned_del = {"A": set(), "B": set()}
+        for act, pth in parse_dry_lines(bisync(sb, dry=True).stdout):
+            if act in ("DeleteA", "DeleteB"):
+                planned_del[act[-1]].add(pth)
         log = os.path.join(root, "trace")
         # reference run
         env = shim_env(sb.env(), log=log)
@@ -1381,7 +1388,7 @@ def _c08_worker(args):
                 nowm = content_map(now[s])
                 for p in set(prem) | set(nowm) | set(refm):
                     cur = nowm.get(p)
-                    allowed = {prem.get(p), refm.get(p)}
+                    allowed = {prem.get(p), refm.get(p)} | ({None} if p in planned_del[s] else set())
                     if cur not in allowed:
                         res["viol"].append(("C08|partial-or-foreign-bytes-after-kill", dict(label, side=s, path=p, holds=cur, pre=prem.get(p), new=refm.get(p))))
             # (b) archive in {old, absent, new}
@@ -1415,7 +1422,14 @@ def _c08_worker(args):
             fin = sb.snaps()
             finA, finB = content_map(fin["A"]), content_map(fin["B"])
             if not done:
-                res["viol"].append(("C08|recovery-did-not-complete-in-3-runs", dict(label, last=rr.brief())))
+                sig = "C08|recovery-did-not-complete-in-3-runs"
+                # one specific, recorded cause (known_findings.json): the killed run left `<name>.copia-tmp` behind,
+                # bisync treats it as an ordinary file, and delivering IT needs `<name>.copia-tmp.copia-tmp`, which is
+                # longer than NAME_MAX - every later run stops with ENAMETOOLONG
+                too_long = [p for sd in "AB" for p in fin[sd] if is_staging(p) and len(os.path.basename(p).encode()) + len(STAGING) > 255]
+                if "File name too long" in rr.stderr and too_long:
+                    sig += "|leftover-staging-name-too-long-to-be-delivered"
+                res["viol"].append((sig, dict(label, last=rr.brief())))
             else:
                 if finA != refA or finB != refB:
                     dA = sorted(set(finA.items()) ^ set(refA.items()))[:4]
